@@ -237,6 +237,12 @@ def first_diff(a, b):
     return None
 
 
+# per differing case: the kinds (first characters) of the observation lines that one side has
+# and the other has not — what the classification looks at when the first difference is of a
+# kind the property does not speak about
+SYMKINDS = {}
+
+
 def compare(trace_path, impl_path, model_path):
     """returns list of differing cases: (id, trace_lines, idx, impl_line, model_line)"""
     tr = dict(split_cases(open(trace_path).read()))
@@ -248,6 +254,9 @@ def compare(trace_path, impl_path, model_path):
         d = first_diff(lines[1:], ml[1:])
         if d is not None:
             diffs.append((cid, tr.get(cid, []), d[0], d[1], d[2]))
+            from collections import Counter
+            a, b = Counter(lines[1:]), Counter(ml[1:])
+            SYMKINDS[cid] = {l[:1] for l in list((a - b).elements()) + list((b - a).elements()) if l}
     return diffs, len(im)
 
 
@@ -505,7 +514,8 @@ PROPS = {
     "C03": {"seq": [("cas", 1024, None, 20, 30)], "conc": [("base", 500)], "pol": 150, "relevant": "RMTP"},
     "C04": {"seq": [("counter", 1024, None, 20, 30)], "conc": [("rmw", 500)], "relevant": "RMT",
             "known_classes": True},
-    "C16": {"seq": [("policy", 1024, 200, 10, 30)], "conc": [("base", 250), ("rmw", 250)], "sweep": 300, "pol": 100, "relevant": "T",
+    "C16": {"seq": [("policy", 1024, 200, 10, 30)], "conn": [("idle", 1024, None, 3, 14)],
+            "conc": [("base", 250), ("rmw", 250)], "sweep": 300, "pol": 100, "relevant": "TS",
             "monitor_kinds": ["STUCK"]},
     "C05": {"seq": [("ttl", 1024, None, 80, 50), ("flush", 1024, None, 60, 50), ("mix", 1024, None, 30, 40)],
             "conc": [("ttl", 300)], "monitor_kinds": ["STUCK", "NONLIN"], "known_classes": True, "known_from": "C04",
@@ -522,7 +532,7 @@ PROPS = {
     "C09": {"seq": [("cuts", 1024, None, 60, 30), ("malformed", 1024, None, 60, 30), ("malformed", 100, None, 40, 30),
                     ("cuts", 64, None, 30, 30)],
             "conn": [("cuts", 1024, None, 30, 25), ("malformed", 100, None, 30, 25), ("malformed", 1024, None, 20, 25),
-                     ("big", 1048576, None, 4, 14)],
+                     ("big", 1048576, None, 4, 14), ("idle", 1024, None, 3, 14)],
             "slow": True, "monitor_kinds": ["SLOW"], "relevant": "RSM"},
     "C10": {"seq": [("malformed", 1024, None, 80, 30), ("malformed", 64, None, 40, 30), ("counter", 1024, None, 30, 40),
                     ("cas", 1024, None, 30, 40)],
@@ -532,7 +542,8 @@ PROPS = {
             "conn": [("mix", 1024, None, 20, 25), ("big", 1048576, None, 6, 16)], "slow": True, "monitor_kinds": ["SLOW"],
             "relevant": "RW", "monitor_prefix": "c11_"},
     "C12": {"seq": [("quiet", 1024, None, 60, 40), ("mix", 1024, None, 40, 40), ("malformed", 1024, None, 30, 30)],
-            "conn": [("quiet", 1024, None, 30, 25), ("mix", 1024, None, 30, 25), ("flush", 1024, None, 20, 25)], "relevant": "RSWM"},
+            "conn": [("quiet", 1024, None, 30, 25), ("mix", 1024, None, 30, 25), ("flush", 1024, None, 20, 25),
+                     ("big", 1048576, None, 6, 14)], "relevant": "RSWM"},
     "C13": {"seq": [("malformed", 100, None, 60, 30), ("malformed", 64, None, 40, 30), ("cuts", 100, None, 30, 30)],
             "conn": [("malformed", 100, None, 40, 25), ("malformed", 1024, None, 20, 25), ("cuts", 64, None, 20, 25)],
             "relevant": "RSMW"},
@@ -544,9 +555,10 @@ PROPS = {
                     ("flush", 1024, 500, 30, 60), ("cas", 1024, 500, 30, 50), ("counter", 1024, 500, 20, 50)],
             "pol": 150, "relevant": "UMRP", "monitor_kinds": ["ACCT", "BOUND", "STUCK", "NONLIN"]},
     "C17": {"seq": [("mix", 1024, None, 10, 20)], "limit": 8, "mlimit": 6, "cfg": 6, "relevant": "VS", "no_minimize": True},
-    "C20": {"seq": [("mix", 1024, 1000000, 30, 40), ("mix", 1024, None, 10, 30)], "cfg": 8, "relevant": "RSCT"},
+    "C20": {"seq": [("mix", 1024, 1000000, 30, 40), ("mix", 1024, None, 10, 30)], "cfg": 8, "mlimit": 4, "relevant": "RSCT"},
     "C18": {"seq": [("cuts", 1024, None, 60, 30), ("malformed", 1024, None, 40, 30)],
-            "conn": [("cuts", 1024, None, 30, 25), ("malformed", 1024, None, 30, 25), ("mix", 1024, None, 20, 25)],
+            "conn": [("cuts", 1024, None, 30, 25), ("malformed", 1024, None, 30, 25), ("mix", 1024, None, 20, 25),
+                     ("idle", 1024, None, 3, 14)],
             "limit": 4, "relevant": "RSMV"},
     "C19": {"seq": [("quiet", 1024, None, 80, 50), ("mix", 1024, None, 30, 40), ("counter", 1024, None, 30, 40),
                     ("malformed", 100, None, 30, 30)],
@@ -859,7 +871,9 @@ def run_seq_suites(prop, cfg, tier, seed, work, report):
     for si, (profile, flavor, il, ml, ncases, steps) in enumerate(allsuites):
         tag = "%s_%d_%s" % (profile, si, flavor)
         tout, iobs, mobs, st = [os.path.join(work, tag + e) for e in (".trace", ".impl", ".model", ".stats")]
-        cmd = [HBIN, profile + "-gen", "--seed", str(seed + si), "--cases", str(ncases * mult), "--steps", str(steps),
+        # every silence of the idle flavour costs the receive timeout in wall time
+        m2 = min(mult, 5) if flavor == "idle" else mult
+        cmd = [HBIN, profile + "-gen", "--seed", str(seed + si), "--cases", str(ncases * m2), "--steps", str(steps),
                "--flavor", flavor, "--item-limit", str(il), "--prefix", "%s%d" % (profile[0], si),
                "--trace", tout, "--obs", iobs, "--stats", st]
         if ml is not None:
